@@ -163,7 +163,7 @@ def task_average_marks(pr, repo):
 
 
 def run(pr, repo):
-    pr.parallel([(C02.task_swap, ()), (C02.task_swap_once, ()), (task_involution, ()), (task_couple, ()), (task_identify, ()), (task_container_search, ()), (task_average_marks, ()),
+    pr.parallel([(C02.task_swap, ()), (C02.task_swap_once, ()), (task_involution, ()), (task_couple, ()), (task_identify, ()), (task_container_search, ()), (task_average_marks, ()), (C02.task_sequencing, ()),
                  (C02.task_render, ())])
     pr.assumptions += ['A-REAL: after the swap back the determinant LIST ORDER differs, so float sums may differ in the last ulp; '
                        '"undone exactly" is proved for the multisets and over the reals, and monitored to 1e-9 in floats',
